@@ -39,16 +39,16 @@ type cbrec struct {
 }
 
 type cres struct {
-	V, FnOld         any
-	OK, FnLoaded, B  bool
-	T                time.Time
-	TTL, D           time.Duration
-	N, FnCalls, Unk  int
-	Visited          []kvp
-	Items            map[int]any
-	Cbs              []cbrec
-	Count            int
-	Panic            string
+	V, FnOld        any
+	OK, FnLoaded, B bool
+	T               time.Time
+	TTL, D          time.Duration
+	N, FnCalls, Unk int
+	Visited         []kvp
+	Items           map[int]any
+	Cbs             []cbrec
+	Count           int
+	Panic           string
 }
 
 type ment struct {
